@@ -119,10 +119,11 @@ class RawClient(object):
     def __init__(self, srv):
         self.srv = srv
 
-    def post(self, body, path="/", segments=None, extra_headers=(), pause=None):
+    def post(self, body, path="/", segments=None, extra_headers=(), pause=None, declared_length=None,
+             half_close=False):
         data = body.encode("utf-8") if isinstance(body, str) else body
         head = ("POST %s HTTP/1.1\r\nHost: localhost\r\nContent-Type: application/json-rpc\r\n"
-                "Content-Length: %d\r\n" % (path, len(data)))
+                "Content-Length: %d\r\n" % (path, len(data) if declared_length is None else declared_length))
         for k, v in extra_headers:
             head += "%s: %s\r\n" % (k, v)
         head += "\r\n"
@@ -141,6 +142,8 @@ class RawClient(object):
                             pos = cut
                             if pause:
                                 pause()
+                if half_close:
+                    sock.shutdown(socket.SHUT_WR)
             except OSError as ex:
                 # the server answered (or closed) before the whole body was sent: what it said is the observation
                 self.send_error = "%s after %d of %d body bytes" % (type(ex).__name__, 0 if segments is None else pos,
